@@ -342,6 +342,8 @@ pub struct FsFaultSpec {
     pub rename_errno: Option<i32>,
     pub fsync_errno: Option<i32>,
     #[serde(default)]
+    pub fsync_error_keeps: Option<u64>,
+    #[serde(default)]
     pub open_read_errno: Option<i32>,
     #[serde(default)]
     pub read_errno: Option<i32>,
@@ -358,6 +360,7 @@ impl FsFaultSpec {
             enospc_after_bytes: self.enospc_after_bytes,
             rename_errno: self.rename_errno,
             fsync_errno: self.fsync_errno,
+            fsync_error_keeps: self.fsync_error_keeps,
             open_read_errno: self.open_read_errno,
             read_errno: self.read_errno,
         }
